@@ -27,7 +27,7 @@ def ts_to_pts(ts: float) -> int:
     v = 0x2100010001  # I have no idea where the 2 comes from at the msb
     v |= (pts & 0x7FFF) << 1  # // bottom 15 bits
     v |= ((pts >> 15) & 0x7FFF) << 17  # // middle 15 bits
-    v |= ((pts >> 30) & 0x7) << 31  # // top 3 bits
+    v |= ((pts >> 30) & 0x7) << 33  # // top 3 bits
 
     return v
 
